@@ -236,6 +236,89 @@ def check_C06(ctx):
     ctx.extra['rule'] = rule + '; plus ' + (WIRE_RULE % 'C06All (255-TTL runs for every variant and identifier base; destination answers at every position relative to pacing)')
     vt.write_evidence(ctx, 'model_checking', ctx_rule(ctx), exhaustive=True)
 
+def _form_ok(variant, form):
+    return {'echo': variant.startswith('icmp'), 'du_port': variant.startswith('udp'), 'synack': variant.startswith('tcp'),
+            'rst': variant.startswith('tcp'), 'sack': variant == 'sack'}.get(form, True)
+
+def check_C08(ctx):
+    engines(ctx, 'C08', ['EngineParallelMC_cancel.cfg'], ['EngineSerialMC_cancel.cfg'], ['C08'])
+    rule = ctx_rule(ctx)
+    scen = vt.tlc_generate(ctx, 'GenWire', 'C08', 0)
+    wire_family(ctx, 'C08', scen, rule, nontrivial=lambda s, es: True)
+    ctx.extra['rule'] = rule + '; plus ' + (WIRE_RULE % 'C08All (silence, floods, SACK handshake stalls, cancellation grid incl. ties)')
+    vt.write_evidence(ctx, 'model_checking', ctx_rule(ctx), exhaustive=True)
+
+def check_C09(ctx):
+    vt.tlc_design(ctx, 'MatcherMC', label='matchers: no packet class is fatal; only a SACK-less ACK on the probed connection ends a run')
+    scen = vt.tlc_generate(ctx, 'GenWire', 'C09', 0)
+    # concretisation beyond the TLC-enumerated classes: seeded random byte strings and random byte flips of genuine replies
+    import random
+    rnd = random.Random(ctx.seed)
+    nrand = 40 if ctx.quick() else 1500      # batches of 20 per variant-independent pool
+    cleans0 = [s for s in scen if not s.get('twin')]
+    for k in range(nrand):
+        c = cleans0[k % len(cleans0)]
+        inj = []
+        for i in range(20):
+            if rnd.random() < 0.5:
+                n = rnd.choice([1, 2, 7, 19, 20, 21, 27, 28, 39, 40, 41, 48, 60, 100, 500, 1024]) if rnd.random() < 0.5 else rnd.randint(1, 1024)
+                raw = bytearray(rnd.getrandbits(8) for _ in range(n))
+                if rnd.random() < 0.7:
+                    raw[0] = rnd.choice([0x45, 0x46, 0x4f, 0x60]) if rnd.random() < 0.8 else raw[0]
+                inj.append({'at_us': 1000 + rnd.randint(0, 300000), 'for_ttl': 3, 'form': 'raw', 'raw': bytes(raw).hex(), 'tag': 'random/len%d' % n})
+            else:
+                form = rnd.choice(['te', 'te'] + [x for x in ('echo', 'du_port', 'synack', 'rst', 'sack') if _form_ok(c['variant'], x)])
+                np_ = rnd.randint(1, 4)
+                patch = [[rnd.randint(0, 70), rnd.getrandbits(8)] for _ in range(np_)]
+                inj.append({'at_us': 1000 + rnd.randint(0, 300000), 'for_ttl': 3, 'form': form, 'from': '192.0.2.%d' % (100 + i) if not c['variant'].endswith('6') else '2001:db8:f::%x' % (100 + i),
+                            'patch': patch, 'tag': 'flip/%s/%s' % (form, '-'.join('%d:%d' % tuple(x) for x in patch))})
+        n = dict(c); n['id'] = '%s/random/%d' % (c['id'], k); n['twin'] = c['id']; n['label'] = c['variant'] + '/junk-batch'; n['inject'] = inj
+        scen.append(n)
+    # first pass: batches of junk; a violating batch is expanded into one scenario per junk packet (label = junk class)
+    by = {s['id']: s for s in scen}
+    if ctx.bin is None:
+        vt.build_harness(ctx)
+    traces = vt.run_harness(ctx, scen, 'C09a')
+    viol = [sid for p, sid in vt.observe(ctx, traces, ['C09']) if p == 'C09']
+    ctx.evaluations += len(scen)
+    singles = []
+    seen_lbl = set()
+    for sid in viol:
+        s = by.get(sid) or by.get(sid.split('#')[0])
+        if s is None:
+            raise Infra('unknown scenario ' + sid)
+        clean = by[s['twin'].split('#')[0]]
+        for k, inj in enumerate(s['inject']):
+            lbl = '%s/%s' % (s['variant'], inj['tag'])
+            if lbl in seen_lbl:
+                continue
+            seen_lbl.add(lbl)
+            one = dict(s); one['inject'] = [inj]; one['id'] = '%s/one/%d' % (s['id'], k); one['label'] = lbl; one['twin'] = clean['id']
+            singles.append(one)
+    cleans = {s['twin'] for s in singles}
+    junk_total = sum(len(s.get('inject', [])) for s in scen)
+    ctx.extra['junk_packets'] = junk_total
+    for s in scen:
+        for inj in s.get('inject', []):
+            ctx.nontrivial.add('%s/%s' % (s['variant'], inj['tag']))
+    ctx.validated += len(scen)
+    if singles:
+        wire_family(ctx, 'C09', [by[c] for c in cleans] + singles, '', nontrivial=lambda s, es: False)
+    ctx.extra['rule'] = ('junk classes enumerated by TLC from GenWire!JunkSet per variant (every truncation length 1..95 of every genuine reply form, version / IHL / '
+                         'length / fragment / protocol / next-header lies, corrupt quoted headers, TCP data-offset and option-length lies, trailing garbage), '
+                         'injected in batches of 20 at 3 instants of a run that is paired with its noise-free twin; a violating batch is re-run one packet at a time; '
+                         'non-trivial/distinct = junk class label (variant/form/damage)')
+    ctx.samples = ctx.samples[:2] + [{'scenario': scen[1] if len(scen) > 1 else scen[0]}]
+    vt.write_evidence(ctx, 'exploration', ctx_rule(ctx), exhaustive=False)
+
+def check_C10(ctx):
+    engines(ctx, 'C10', ['EngineParallelMC_faults.cfg'], ['EngineSerialMC_faults.cfg'], ['C10'])
+    rule = ctx_rule(ctx)
+    scen = vt.tlc_generate(ctx, 'GenWire', 'C10', 0)
+    wire_family(ctx, 'C10', scen, rule, nontrivial=lambda s, es: any(e['event'] == 'Fault' for e in es))
+    ctx.extra['rule'] = rule + '; plus ' + (WIRE_RULE % 'C10All (the k-th call of every Source/Sink operation and constructor x error class, on every protocol entry point)') + '; non-trivial = the fault fired'
+    vt.write_evidence(ctx, 'model_checking', ctx_rule(ctx), exhaustive=True)
+
 def check_C07(ctx):
     cfgs = ['EngineParallelMC.cfg', 'EngineParallelMC_faults.cfg']
     if not ctx.quick():
@@ -244,7 +327,7 @@ def check_C07(ctx):
     vt.write_evidence(ctx, 'model_checking', ctx_rule(ctx), exhaustive=True)
 
 CHECKS = {
-    'C01': check_C01, 'C02': check_C02, 'C03': check_C03, 'C04': check_C04, 'C05': check_C05, 'C06': check_C06, 'C07': check_C07,
+    'C01': check_C01, 'C02': check_C02, 'C03': check_C03, 'C04': check_C04, 'C05': check_C05, 'C06': check_C06, 'C07': check_C07, 'C08': check_C08, 'C09': check_C09, 'C10': check_C10,
 }
 
 def replay(ctx, path):
